@@ -356,9 +356,21 @@ class Interp:
                     if m == 'B':
                         return [h, t[1], xr]
                     if m == 'R':
-                        # Rust `as` conversions round toward zero
+                        # Rust `as` conversions round toward zero. Small magnitudes (sizes, counts, indices)
+                        # are spelled out as a comparison chain, which linear arithmetic decides; the general
+                        # case falls back to int2bv(trunc(x)), which solvers handle poorly.
                         self.uf_rtz()
-                        return [['_', 'int2bv', str(W)], ['r_rtz', xr]]
+                        fallback = [['_', 'int2bv', str(W)], ['r_rtz', xr]]
+                        def lit(n):
+                            return '#b' + bin(n & ((1 << W) - 1))[2:].zfill(W)
+                        chain = fallback
+                        for n in range(40, -1, -1):
+                            chain = ['ite', ['and', ['>=', xr, f'{n}.0'], ['<', xr, f'{n + 1}.0']], lit(n), chain]
+                        if k == 'fp.to_sbv':
+                            for n in range(1, 41):
+                                chain = ['ite', ['and', ['<=', xr, f'(- {n}.0)'], ['>', xr, f'(- {n + 1}.0)']], lit(-n), chain]
+                            chain = ['ite', ['and', ['>', xr, '(- 1.0)'], ['<', xr, '0.0']], lit(0), chain]
+                        return chain
                     f = self.uf(f'u.{k[6:]}_{sw[0]+sw[1]}_{W}', [BV(sw[0] + sw[1])], BV(W))
                     return [f, xr]
                 if k in ('extract', 'zero_extend', 'sign_extend', 'repeat', 'rotate_left', 'rotate_right'):
@@ -399,6 +411,8 @@ class Interp:
             if s is None or e is None or mm is None:
                 raise ValueError('non-literal fp constructor: ' + dumps(t)[:200])
             bits = s + e + mm
+            if m == 'R' and len(bits) in (32, 64):
+                self.lits.add(bits)
             return '#b' + bits if m == 'U' else bits_value_real(bits)
         if h in FP_RM_OPS or h in FP_NORM_OPS or h in FP_PREDS:
             return self.fpop(h, t, env)
@@ -414,6 +428,10 @@ class Interp:
             return [h, self.term(t[1], env), self.term(t[2], env)]
         if h.startswith(UFPFX) and not passthrough(h[len(UFPFX):]):
             return self.libm(h[len(UFPFX):], t, env)
+        if isinstance(h, str) and h.startswith(UFPFX + 'h_') and self.mode == 'R':
+            a = [self.term(y, env) for y in t[1:]]
+            self.apps.setdefault(h[len(UFPFX):], []).append(tuple(dumps(self.close(x, env)) for x in a))
+            return [h] + a
         return [h] + [self.term(y, env) for y in t[1:]]
 
     def uf_rtz(self):
@@ -700,6 +718,19 @@ class Interp:
             for W in (64, 32):
                 if f'b2r{W}' in self.ufdecl:
                     self.lits.add('0' * W)
+            if 'b2r64' in self.ufdecl:
+                # constants that reach memory byte by byte are reassembled by the solver, not by us: give b2r64
+                # its value on the usual program constants (small integers, dyadic fractions, powers of two,
+                # the f64 limits) in addition to every float literal seen in the VC
+                import struct
+                vals = [float(k) for k in range(-32, 33)] + [k / 8.0 for k in range(-16, 17)]
+                vals += [2.0 ** k for k in range(-12, 13)] + [-(2.0 ** k) for k in range(-12, 13)]
+                vals += [2.220446049250313e-16, 1.7976931348623157e308, -1.7976931348623157e308, 1e-6, 1e-8, 1e-10, 0.1, 0.01]
+                for x in vals:
+                    self.lits.add(bin(struct.unpack('<Q', struct.pack('<d', x))[0])[2:].zfill(64))
+                self.lits.add('0' + '1' * 11 + '0' * 52)
+                self.lits.add('1' + '1' * 11 + '0' * 52)
+                self.lits.add('1' + '0' * 63)
             for bits in sorted(self.lits):
                 W = len(bits)
                 if f'b2r{W}' not in self.ufdecl:
